@@ -405,16 +405,18 @@ def refine(ctx, rec, oracles=('step_update', 'step_stats', 'step_momentum',
         _max_intermediate(cfg, leaf, g, rts) > 1e37)
     ngam = float(np.linalg.norm(r['gamma']))
     mult = ngam / (npg + ref.EPS) if cfg.get('graft_type', 1) != 0 else 1.0
-    tol_sigma = 2.0 * mult * amp + u32 * (float(np.max(np.abs(r['sigma'])))
-                                          if r['sigma'].size else 0.0)
+    tol_sigma = 2.0 * mult * amp + u32 * (1.0 + np.sqrt(max(int(np.size(g)), 1))
+                                          / 8.0) * (
+        float(np.max(np.abs(r['sigma']))) if r['sigma'].size else 0.0)
     wd_term = abs(cfg.get('weight_decay', 0.0)) * (
         float(np.max(np.abs(rec['params'][i]))) if np.size(rec['params'][i])
         else 0.0)
     base = u32 * (float(np.max(np.abs(ms['mom']))) if np.size(ms['mom']) else 0.0)
     tol_mom = tol_sigma + base + u32 * wd_term
+    nfac = 1.0 + np.sqrt(max(int(np.size(g)), 1)) / 8.0
     tol_dmom = u32 * ((float(np.max(np.abs(ms['dmom']))) if np.size(ms['dmom'])
-                       else 0.0) + (float(np.max(np.abs(r['gamma'])))
-                                    if r['gamma'].size else 0.0) + wd_term)
+                       else 0.0) + nfac * (float(np.max(np.abs(r['gamma'])))
+                                           if r['gamma'].size else 0.0) + wd_term)
     if f32_range_bad:
       ctx.probe('f32_range_exceeded')
       for o in ('step_momentum', 'step_update'):
@@ -543,7 +545,9 @@ def graft(ctx, rec):
     active = t >= S and not leaf['skip']
     if not active:
       want = -scale_out * eff
-      tol = C * U32 * (float(np.max(np.abs(want))) + 1e-300)
+      # norms / rms of n entries are accumulated in float32
+      tol = (C + 2.0 * np.sqrt(want.size)) * U32 * (
+          float(np.max(np.abs(want))) + 1e-300)
       ok = float(np.max(np.abs(u - want))) <= tol
       ctx.ev('warmup_graft', 'ok' if ok else 'violation')
       if not ok:
